@@ -276,3 +276,67 @@ def write_gate(res, model, rule="R-PHASE"):
     return effects_check(res, model, nested_func(model, "broker.market.write_func", inner[0].name), REF_WRITE_GATE,
                          "write gate: reject when closed, call, then raise has_update (never before, never cleared here)",
                          [wf.params[0] if wf.params else "func"], ordered=True, keep_raise_effects=True, rule=rule)
+
+
+def gate_coverage(res, model, cls_name: str, fields, why: str, rule="R-PHASE", floor: int = 1):
+    """Every method of `cls_name` that stores into one of `fields` of the market's own records (`x.liquidity = ...`,
+    `x.liquidity += ...`, a record constructed with the field and put into the market's state) runs under the write
+    gate: it carries `@write_func` itself, or it is private and every method of the class that calls it does
+    (transitively).  The gate is what raises `has_update`, and `has_update` is what makes the bar loop refresh the
+    market's status after the operation - the only place where values derived from those fields are recomputed."""
+    import ast as _ast
+    c = model.cls(cls_name)
+    meths = {}
+    for k in reversed(model.mro(c)):
+        meths.update(k.methods)
+
+    def writes(f):
+        out = []
+        for n in _ast.walk(f.node):
+            tg = []
+            if isinstance(n, _ast.Assign):
+                tg = n.targets
+            elif isinstance(n, (_ast.AugAssign, _ast.AnnAssign)):
+                tg = [n.target]
+            for t in tg:
+                if isinstance(t, _ast.Attribute) and t.attr in fields and not (isinstance(t.value, _ast.Name) and t.value.id == "self"):
+                    out.append(n)
+        return out
+
+    def mangled(nm):
+        return nm
+
+    def callers(name):
+        out = []
+        for g in meths.values():
+            for n in _ast.walk(g.node):
+                if isinstance(n, _ast.Call) and isinstance(n.func, _ast.Attribute) and isinstance(n.func.value, _ast.Name) \
+                        and n.func.value.id == "self" and n.func.attr == name and g.name != name:
+                    out.append(g)
+                    break
+        return out
+
+    def gated(f, seen=()):
+        if "write_func" in f.decorators:
+            return True
+        if not f.name.startswith("_") or f.name in seen:
+            return False
+        cs = callers(f.name)
+        return bool(cs) and all(gated(g, seen + (f.name,)) for g in cs)
+
+    n = 0
+    for name, f in sorted(meths.items()):
+        if name == "__init__":
+            continue
+        ws = writes(f)
+        if not ws:
+            continue
+        n += 1
+        ok = gated(f)
+        res.ob(rule, f"{cls_name}.{name} writes {sorted({w.targets[0].attr if isinstance(w, _ast.Assign) else w.target.attr for w in ws})} under the write gate", f.loc(ws[0]), ok=ok)
+        if not ok:
+            res.find(rule, f.qualname, f"writes {sorted(fields)[0]} outside the write gate", f.loc(ws[0]),
+                     f"{f.qualname} changes `{_ast.unparse(ws[0])[:70]}` but neither it nor all of its callers run under @write_func: "
+                     f"`has_update` is not raised, so the bar loop does not refresh the market status after the operation ({why})")
+    res.floor(f"gate_coverage_{cls_name}", n, floor)
+    return n
